@@ -87,6 +87,33 @@ Definition map_ok (v0 cs aft : list validator) : bool :=
                     end)
           (map v_addr (v0 ++ cs ++ aft)).
 
+(* The specification's scale-and-centre step applied to an update batch that adds no NEW
+   validator (the priority of a new validator is a separate rule): members keep their priority,
+   then priorities are scaled by ceil(diff / 2P') when their spread exceeds 2P' (P' = total power
+   after the batch) and centred on the floor average.  Plain integers, written here independently
+   of the code model. *)
+Definition spec_scale_centre (P : Z) (l : list validator) : list validator :=
+  let diff := max_prio l - min_prio l in
+  let threshold := 2 * P in
+  let scaled := if diff >? threshold
+                then let scale := (diff + threshold - 1) / threshold in
+                     map (fun v => set_prio v (Z.quot (v_prio v) scale)) l
+                else l in
+  let avg := sum_prio scaled / Z.of_nat (List.length scaled) in
+  map (fun v => set_prio v (v_prio v - avg)) scaled.
+Definition no_new_validator (v0 cs : list validator) : bool :=
+  forallb (fun c => match find_addr (v_addr c) v0 with Some _ => true | None => false end) cs.
+Definition update_prios_ok (v0 cs aft : list validator) : bool :=
+  negb (no_new_validator v0 cs) ||
+  let kept := flat_map (fun v => match expected_power v0 cs (v_addr v) with
+                                 | Some p => [mkVal (v_addr v) p (v_prio v)] | None => [] end) v0 in
+  match kept with
+  | [] => true
+  | _ => let want := spec_scale_centre (fold_right (fun v s => v_power v + s) 0 kept) kept in
+         forallb (fun w => match find_addr (v_addr w) aft with
+                           | Some a => v_prio a =? v_prio w | None => false end) want
+  end.
+
 Definition within (b : Z) (l : list validator) : bool :=
   forallb (fun v => (- b <=? v_prio v) && (v_prio v <=? b)) l.
 
@@ -211,6 +238,7 @@ Definition check (c : case) : verdict :=
       viol (negb ok || match cs with [] => true | _ => inv_ok aft end) 3;
       viol (negb ok || map_ok v0 ch aft) 4;
       viol (negb ok || match cs with [] => true | _ => within (2 * plain_total aft + 1) aft end) 7;
+      viol (negb ok || match cs with [] => true | _ => update_prios_ok v0 ch aft end) 9;
       mism (res_class r =? res_i)%N 21;
       mism (match r with Ok vs' => vals_eqb (vs_vals vs') aft | Err _ => true end) 22 ]
   | CNew valz res_i after_i prop_i perms =>
